@@ -348,6 +348,12 @@ fn run() {
                 updrun::run(&mut report, replay.as_deref());
                 report.rule = format!("{rule} + prune half: {}", report.rule);
             }
+            if prop == "C02" {
+                // exit status and printed conclusion of the real cmd_check
+                let rule = report.rule.clone();
+                cmd::run(&mut report);
+                report.rule = format!("{rule} + command layer: exit status and printed conclusion of real `check` runs against the resolver's conclusion on the same store");
+            }
             if prop == "C12" {
                 // the clean-ups of certify / trust / import prune the target's exemptions too
                 ucmd::run(&mut report);
